@@ -95,7 +95,6 @@ def dupChar (ms : List Rep) : Bool :=
 
 def setBuilderOk (n : Nat) : Bool :=
   (allLists smallMembers n).all (fun ms =>
-    dupChar ms ||   -- KF-string-dup-member: asString miscounts holes when one member is added twice
     okWith (fun r => wf r && veq (den r) (V.mkSet (denList ms))) (setBuilderFinish ms))
 
 /-- the canonical representation built from a denotation denotes it (`build` = the constructors applied
